@@ -97,4 +97,11 @@ def opSubmit (j : Json) : Except String Json := do
     ("valid", .bool (decide (Valid cfg shots instrs))),
     ("qobj", qobjJson (qobj shots instrs))]
 
+def opCtrlName (j : Json) : Except String Json := do
+  let target ← fStr j "target"
+  let cs ← (← fList j "ctrl_state").mapM fun b => do return (← nat b) != 0
+  return match ctrlQasmName target cs with
+    | some nm => Json.mkObj [("name", .str nm)]
+    | none => Json.mkObj [("raised", .str "NotImplemented")]
+
 end Qib.Wmi
